@@ -201,6 +201,10 @@ def float_case(c):
     SplineInterpolator2D(bq, br).compute_interpolant(_phi_values(c['kind'], c['amp'], q, r, nprng), phi)
     f0 = nprng.random((q.size, r.size))
     f = f0.copy()
+    if c['seed'] % 2:
+        # the caller's slice may be a view with other strides (a plane of a larger block)
+        f = np.full((q.size, 2, r.size), np.nan)[:, 1, :]
+        f[...] = f0
     adv.step(f, c['dt'], phi, 0.0)
     cu = bool(bq.cubic_uniform)
     ff = qlift.frac_of_float
